@@ -29,8 +29,8 @@ MANIFEST = dict(
          "account-state delta against the monitor: any effect => Authorized for the really registered signers, canonical authorised => packaged and "
          "accepted, effect = that of the submitted content, refusal changes nothing. A seeded driver does the same for random large accounts "
          "(up to 100 signers, weights 1..100, up to 110 signatures).",
-    note="One genuine defect is carried as named deviation Dev_MultisigCountsRepeatedSigner (checkSignersWeight adds a signer's weight once per "
-         "signature): accepted only where exactly per-signature counting explains the acceptance; design-side negative control included. "
+    note="One genuine defect was found and repaired in /repo (checkSignersWeight added a signer's weight once per signature; fix: commit in known_findings.txt); the "
+         "named deviation Dev_MultisigCountsRepeatedSigner stays in the spec (design-side negative control) and would be accepted only if listed again. "
          "The arrival check of real nodes (VerifyTxBody) is applied before the miner, with the parent block's time as 'now'.",
     technique="TLA+ model checking (Auth.tla) + replay of every enumerated case on real nodes + TLC trace validation (TraceAuth.tla)")
 
